@@ -13,4 +13,11 @@ namespace Facts17
 
 theorem accessors_never_write : Generated.objectMapWrites = 0 := by decide
 
+/-- The media type grammar `mime.Parse` (hence `GetMediaType`) accepts is the one `Mime.parse` was
+    transcribed from: two runs of HTTP token characters around a slash, anything after. -/
+theorem media_type_grammar_unchanged :
+    Generated.mimeRegexes =
+      ["(?s)^(([!#$%&'*+\\-.^_\\x60|~a-zA-Z0-9]+)/([!#$%&'*+\\-.^_\\x60|~a-zA-Z0-9]+)).*$"] ∧
+    Generated.jtpRegexes.head? = Generated.mimeRegexes.head? := by decide
+
 end Facts17
